@@ -71,7 +71,8 @@ structure Inv (s : State) : Prop where
   bound_done : ∀ c f, (s.co c).bound = some f → (s.co c).st = St.done →
       (s.fut f).ready = true ∧ (s.fut f).out = (s.co c).outcome ∧ (s.fut f).setBy = [some c]
   bound_inj : ∀ c c' f, (s.co c).bound = some f → (s.co c').bound = some f → c = c'
-  unbound_set : ∀ f, (∀ c, (s.co c).bound ≠ some f) → (s.fut f).setBy = [] ∨ ((s.fut f).setBy = [none] ∧ f < s.nExt)
+  unbound_set : ∀ f, (∀ c, (s.co c).bound ≠ some f) →
+      (s.fut f).setBy = [] ∨ ((s.fut f).setBy = [none] ∧ f < s.nExt ∧ (s.fut f).ready = true)
   ready_ok : ∀ f, (s.fut f).ready = true → (s.fut f).waiters = [] ∧ (s.fut f).claimed = true
   out_ready : ∀ f, (s.fut f).out ≠ none → (s.fut f).ready = true
   refs_lt : ∀ c f, (s.co c).st.refs f = true → f < s.nextFut
@@ -82,10 +83,59 @@ structure Inv (s : State) : Prop where
 theorem coOk_default : CoOk {} := by
   constructor <;> simp [St.began, St.freed, St.started, St.susp]
 
+/-- body code is (or can be) executing: begun, not suspended on a future, not finished -/
+def St.mid : St → Bool
+  | St.running | St.wantAwait _ _ | St.resumable _ _ | St.yielded => true
+  | _ => false
+
+macro "co_tac" : tactic => `(tactic| (constructor <;> simp_all [St.began, St.freed, St.started, St.susp, St.mid]))
+
+theorem coOk_create (x : Coro) (p : List Act) (h : CoOk x) (hs : x.st = St.absent) :
+    CoOk { x with st := St.unstarted, pc := p, allocs := x.allocs + 1 } := by
+  obtain ⟨a1,a2,a3,a4,a5,a6,a7,a8,a9,a10⟩ := h
+  co_tac
+
+theorem coOk_dropU (x : Coro) (h : CoOk x) (hs : x.st = St.unstarted) :
+    CoOk { x with st := St.dropped, frameFrees := x.frameFrees + 1, argDtors := x.argDtors + 1 } := by
+  obtain ⟨a1,a2,a3,a4,a5,a6,a7,a8,a9,a10⟩ := h
+  co_tac
+
+theorem coOk_start (x : Coro) (b : Option Nat) (h : CoOk x) (hs : x.st = St.unstarted) :
+    CoOk { x with st := St.scheduled, bound := b, startsOk := x.startsOk + 1 } := by
+  obtain ⟨a1,a2,a3,a4,a5,a6,a7,a8,a9,a10⟩ := h
+  co_tac
+
+theorem coOk_begin (x : Coro) (h : CoOk x) (hs : x.st = St.scheduled) :
+    CoOk { x with st := St.running, bodyStarts := x.bodyStarts + 1 } := by
+  obtain ⟨a1,a2,a3,a4,a5,a6,a7,a8,a9,a10⟩ := h
+  co_tac
+
+/-- moving between non-suspended body states, touching only `st`, `pc`, `acc`, `saw` -/
+theorem coOk_mid (x : Coro) (st : St) (p : List Act) (a : Nat) (w : List (Nat × Outcome)) (h : CoOk x)
+    (hs : x.st.mid = true) (hs' : st.mid = true) :
+    CoOk { x with st := st, pc := p, acc := a, saw := w } := by
+  obtain ⟨a1,a2,a3,a4,a5,a6,a7,a8,a9,a10⟩ := h
+  cases hx : x.st <;> simp [hx, St.mid] at hs <;> cases st <;> simp [St.mid] at hs' <;> co_tac
+
+theorem coOk_subscribe (x : Coro) (f : Nat) (ct : Bool) (h : CoOk x) (hs : x.st.mid = true) :
+    CoOk { x with st := St.awaiting f ct, suspends := x.suspends + 1 } := by
+  obtain ⟨a1,a2,a3,a4,a5,a6,a7,a8,a9,a10⟩ := h
+  cases hx : x.st <;> simp [hx, St.mid] at hs <;> co_tac
+
+theorem coOk_wake (x : Coro) (f : Nat) (ct : Bool) (h : CoOk x) (hs : x.st = St.awaiting f ct) :
+    CoOk { x with st := St.resumable f ct, wakes := x.wakes + 1 } := by
+  obtain ⟨a1,a2,a3,a4,a5,a6,a7,a8,a9,a10⟩ := h
+  constructor <;> simp_all [St.began, St.freed, St.started, St.susp]
+
+theorem coOk_retire (x : Coro) (o : Outcome) (h : CoOk x) (hs : x.st.mid = true) :
+    CoOk { x with st := St.done, outcome := some o, localDtors := x.localDtors + 1,
+                  deliveredTo := x.bound.toList ++ x.deliveredTo,
+                  frameFrees := x.frameFrees + 1, argDtors := x.argDtors + 1 } := by
+  obtain ⟨a1,a2,a3,a4,a5,a6,a7,a8,a9,a10⟩ := h
+  cases hx : x.st <;> simp [hx, St.mid] at hs <;> co_tac
+
 theorem inv_init (prog : Nat → List Act) (n : Nat) : Inv (init prog n) := by
   constructor <;> simp [init, coOk_default, St.refs, St.isAw, St.isRes]
-
-macro "co_tac" : tactic => `(tactic| (constructor <;> simp_all [St.began, St.freed, St.started, St.susp]))
 
 /-- replacing the record of coroutine `c` by one with the same binding, neither the old nor the new state being
 `done`, the same subscription, and new references only to futures it may await -/
@@ -207,8 +257,7 @@ theorem inv_startCoro_none (s : State) (c : Nat) (h : Inv s) (hc : (s.co c).st =
     Inv (startCoro s c none) := by
   have hb := (h.co_ok c).unb (by simp [hc, St.started])
   apply inv_setCo s c _ h
-  · obtain ⟨a1,a2,a3,a4,a5,a6,a7,a8,a9,a10⟩ := h.co_ok c
-    co_tac
+  · exact coOk_start _ none (h.co_ok c) hc
   · simp [hb]
   · simp
   · simp [hc]
@@ -227,8 +276,7 @@ theorem inv_bind (s : State) (c f : Nat) (h : Inv s) (hc : (s.co c).st = St.unst
   · exact h1
   · intro y; by_cases hy : y = c
     · subst hy; simp only [upd_same]
-      obtain ⟨a1,a2,a3,a4,a5,a6,a7,a8,a9,a10⟩ := h2 y
-      co_tac
+      exact coOk_start _ _ (h2 y) hc
     · simpa [upd_ne _ _ hy] using h2 y
   · intro y g hy; by_cases hyc : y = c
     · subst hyc; simp at hy; subst hy; exact ⟨hf, hcl⟩
@@ -263,5 +311,857 @@ theorem inv_bind (s : State) (c f : Nat) (h : Inv s) (hc : (s.co c).st = St.unst
   · intro y g hg hy; by_cases hyc : y = c
     · subst hyc; simp [St.refs] at hy
     · rw [upd_ne _ _ hyc] at hy; exact h13 y g hg hy
+
+
+theorem inv_subscribe (s : State) (c f : Nat) (ct : Bool) (h : Inv s)
+    (hst : (s.co c).st = St.running ∨ (s.co c).st = St.wantAwait f ct)
+    (hr : (s.fut f).ready = false) (hf : f < s.nextFut) (hown : s.nExt ≤ f → (s.fut f).owner = some c) :
+    Inv (subscribe s c f ct) := by
+  obtain ⟨h1,h2,h3,h4,h5,h6,h7,h8,h9,h10,h11,h12,h13⟩ := h
+  have hnd : (s.co c).st ≠ St.done := by rcases hst with e | e <;> simp [e]
+  have hnaw : ∀ g, (s.co c).st.isAw g = false := by intro g; rcases hst with e | e <;> simp [e, St.isAw]
+  have kb : ∀ y, (upd s.co c { s.co c with st := St.awaiting f ct, suspends := (s.co c).suspends + 1 } y).bound
+      = (s.co y).bound := by
+    intro y; by_cases hy : y = c
+    · subst hy; simp
+    · simp [upd_ne _ _ hy]
+  have kr : ∀ g, (upd s.fut f { s.fut f with waiters := c :: (s.fut f).waiters } g).ready = (s.fut g).ready := by
+    intro g; by_cases hg : g = f
+    · subst hg; simp
+    · simp [upd_ne _ _ hg]
+  have ko : ∀ g, (upd s.fut f { s.fut f with waiters := c :: (s.fut f).waiters } g).out = (s.fut g).out := by
+    intro g; by_cases hg : g = f
+    · subst hg; simp
+    · simp [upd_ne _ _ hg]
+  have ks : ∀ g, (upd s.fut f { s.fut f with waiters := c :: (s.fut f).waiters } g).setBy = (s.fut g).setBy := by
+    intro g; by_cases hg : g = f
+    · subst hg; simp
+    · simp [upd_ne _ _ hg]
+  have kc : ∀ g, (upd s.fut f { s.fut f with waiters := c :: (s.fut f).waiters } g).claimed = (s.fut g).claimed := by
+    intro g; by_cases hg : g = f
+    · subst hg; simp
+    · simp [upd_ne _ _ hg]
+  have kw : ∀ g, (upd s.fut f { s.fut f with waiters := c :: (s.fut f).waiters } g).owner = (s.fut g).owner := by
+    intro g; by_cases hg : g = f
+    · subst hg; simp
+    · simp [upd_ne _ _ hg]
+  refine ⟨?_,?_,?_,?_,?_,?_,?_,?_,?_,?_,?_,?_,?_⟩ <;> dsimp only [subscribe, setCo, setFut]
+  · exact h1
+  · intro y; by_cases hy : y = c
+    · subst hy; simp only [upd_same]
+      exact coOk_subscribe _ f ct (h2 y) (by rcases hst with e | e <;> simp [e, St.mid])
+    · simpa [upd_ne _ _ hy] using h2 y
+  · intro y g hy; rw [kb] at hy; rw [kc]; exact h3 y g hy
+  · intro y g hy hst'; rw [kb] at hy; rw [kr, ko, ks]
+    by_cases hyc : y = c
+    · subst hyc; exact h4 y g hy hnd
+    · rw [upd_ne _ _ hyc] at hst'; exact h4 y g hy hst'
+  · intro y g hy hst'; rw [kb] at hy; rw [kr, ko, ks]
+    by_cases hyc : y = c
+    · subst hyc; simp at hst'
+    · rw [upd_ne _ _ hyc] at hst' ⊢; exact h5 y g hy hst'
+  · intro y y' g hy hy'; rw [kb] at hy hy'; exact h6 y y' g hy hy'
+  · intro g hg; rw [ks, kr]; apply h7 g; intro y; have := hg y; rw [kb] at this; exact this
+  · intro g hg; rw [kr] at hg; rw [kc]
+    have hne : g ≠ f := by intro e; subst e; rw [hr] at hg; cases hg
+    simp only [upd_ne _ _ hne]; exact h8 g hg
+  · intro g hg; rw [ko] at hg; rw [kr]; exact h9 g hg
+  · intro y g hy; by_cases hyc : y = c
+    · subst hyc; simp [St.refs] at hy; subst hy; exact hf
+    · rw [upd_ne _ _ hyc] at hy; exact h10 y g hy
+  · intro y g
+    by_cases hg : g = f
+    · subst hg; simp only [upd_same, List.count_cons]
+      by_cases hyc : y = c
+      · subst hyc; have := h11 y g; simp [hnaw g] at this; simp [St.isAw, this]
+      · have := h11 y g; simp only [upd_ne _ _ hyc]
+        have e : (c == y) = false := by simp; exact fun e => hyc e.symm
+        simp [e]; exact this
+    · simp only [upd_ne _ _ hg]
+      by_cases hyc : y = c
+      · subst hyc; have := h11 y g; simp [hnaw g] at this
+        have e : (f == g) = false := by simp; exact fun e => hg e.symm
+        simp [St.isAw, this, e]
+      · simp only [upd_ne _ _ hyc]; exact h11 y g
+  · intro y g hy; rw [kr]; by_cases hyc : y = c
+    · subst hyc; simp [St.isRes] at hy
+    · rw [upd_ne _ _ hyc] at hy; exact h12 y g hy
+  · intro y g hg hy; rw [kw]; by_cases hyc : y = c
+    · subst hyc; simp [St.refs] at hy; subst hy; exact hown hg
+    · rw [upd_ne _ _ hyc] at hy; exact h13 y g hg hy
+
+
+/-! ### resolution of a future: every subscribed coroutine is made resumable, exactly once -/
+
+/-- what `resolve f` does to one coroutine record, given the invariant `waiters.count = [isAw]` -/
+def wk (x : Coro) (f : Nat) : Coro := wakeOne x (if x.st.isAw f then 1 else 0)
+
+theorem resolve_co (s : State) (f : Nat) (h : Inv s) : (resolve s f).co = fun x => wk (s.co x) f := by
+  funext x; simp only [resolve, wk, h.waiters_count x f]
+
+@[simp] theorem wk_bound (x : Coro) (f : Nat) : (wk x f).bound = x.bound := rfl
+@[simp] theorem wk_outcome (x : Coro) (f : Nat) : (wk x f).outcome = x.outcome := rfl
+
+theorem wk_of_not (x : Coro) (f : Nat) (h : x.st.isAw f = false) : wk x f = x := by
+  cases x with
+  | mk st pc bound acc allocs bodyStarts frameFrees argDtors localDtors startsOk suspends wakes outcome deliveredTo saw =>
+    simp only [wk, wakeOne] at *
+    cases st <;> simp_all [St.isAw]
+
+theorem wk_of_aw (x : Coro) (f : Nat) (ct : Bool) (h : x.st = St.awaiting f ct) :
+    wk x f = { x with st := St.resumable f ct, wakes := x.wakes + 1 } := by
+  simp [wk, wakeOne, h, St.isAw]
+
+theorem wk_cases (x : Coro) (f : Nat) :
+    wk x f = x ∧ x.st.isAw f = false ∨ ∃ ct, x.st = St.awaiting f ct ∧ wk x f = { x with st := St.resumable f ct, wakes := x.wakes + 1 } := by
+  cases hx : x.st.isAw f
+  · left; exact ⟨wk_of_not x f hx, rfl⟩
+  · right
+    cases hs : x.st <;> simp [hs, St.isAw] at hx
+    subst hx
+    exact ⟨_, rfl, wk_of_aw x _ _ hs⟩
+
+theorem coOk_wk (x : Coro) (f : Nat) (h : CoOk x) : CoOk (wk x f) := by
+  rcases wk_cases x f with ⟨e, _⟩ | ⟨ct, hs, e⟩
+  · rw [e]; exact h
+  · rw [e]; exact coOk_wake x f ct h hs
+
+theorem wk_done (x : Coro) (f : Nat) : (wk x f).st = St.done ↔ x.st = St.done := by
+  rcases wk_cases x f with ⟨e, _⟩ | ⟨ct, hs, e⟩
+  · rw [e]
+  · rw [e]; simp [hs]
+
+theorem wk_refs (x : Coro) (f g : Nat) : (wk x f).st.refs g = x.st.refs g := by
+  rcases wk_cases x f with ⟨e, _⟩ | ⟨ct, hs, e⟩
+  · rw [e]
+  · rw [e]; simp [hs, St.refs]
+
+theorem wk_isAw (x : Coro) (f g : Nat) : (wk x f).st.isAw g = (x.st.isAw g && !(g == f)) := by
+  rcases wk_cases x f with ⟨e, hn⟩ | ⟨ct, hs, e⟩
+  · rw [e]
+    by_cases hg : g = f
+    · subst hg; simp [hn]
+    · simp [hg]
+  · rw [e]; simp [hs, St.isAw]
+    intro e; exact e.symm
+
+theorem wk_isRes (x : Coro) (f g : Nat) (h : (wk x f).st.isRes g = true) : x.st.isRes g = true ∨ g = f := by
+  rcases wk_cases x f with ⟨e, hn⟩ | ⟨ct, hs, e⟩
+  · rw [e] at h; exact Or.inl h
+  · rw [e] at h; simp [St.isRes] at h; exact Or.inr h.symm
+
+
+/-- core of every resolution: `f` becomes ready with an empty chain, coroutine records change as described pointwise;
+the clauses about bindings are supplied by the caller -/
+theorem inv_of_resolved (s : State) (f : Nat) (Y : Fut) (co' : Nat → Coro) (h : Inv s)
+    (hY1 : Y.ready = true) (hY2 : Y.waiters = []) (hY3 : Y.claimed = true) (hY4 : Y.owner = (s.fut f).owner)
+    (c1 : ∀ x, CoOk (co' x))
+    (c2 : ∀ x g, (co' x).st.refs g = true → (s.co x).st.refs g = true)
+    (c3 : ∀ x g, (co' x).st.isAw g = ((s.co x).st.isAw g && !(g == f)))
+    (c4 : ∀ x g, (co' x).st.isRes g = true → (s.co x).st.isRes g = true ∨ g = f)
+    (b1 : ∀ c g, (co' c).bound = some g → g < s.nextFut ∧ (upd s.fut f Y g).claimed = true)
+    (b2 : ∀ c g, (co' c).bound = some g → (co' c).st ≠ St.done →
+      (upd s.fut f Y g).ready = false ∧ (upd s.fut f Y g).out = none ∧ (upd s.fut f Y g).setBy = [])
+    (b3 : ∀ c g, (co' c).bound = some g → (co' c).st = St.done →
+      (upd s.fut f Y g).ready = true ∧ (upd s.fut f Y g).out = (co' c).outcome ∧ (upd s.fut f Y g).setBy = [some c])
+    (b4 : ∀ c c' g, (co' c).bound = some g → (co' c').bound = some g → c = c')
+    (b5 : ∀ g, (∀ c, (co' c).bound ≠ some g) →
+      (upd s.fut f Y g).setBy = [] ∨ ((upd s.fut f Y g).setBy = [none] ∧ g < s.nExt ∧ (upd s.fut f Y g).ready = true)) :
+    Inv { s with co := co', fut := upd s.fut f Y } := by
+  obtain ⟨h1,h2,h3,h4,h5,h6,h7,h8,h9,h10,h11,h12,h13⟩ := h
+  refine ⟨h1, c1, b1, b2, b3, b4, b5, ?_, ?_, ?_, ?_, ?_, ?_⟩ <;> dsimp only
+  · intro g hg; by_cases hgf : g = f
+    · subst hgf; simp [hY2, hY3]
+    · rw [upd_ne _ _ hgf] at hg ⊢; exact h8 g hg
+  · intro g hg; by_cases hgf : g = f
+    · subst hgf; simp [hY1]
+    · rw [upd_ne _ _ hgf] at hg ⊢; exact h9 g hg
+  · intro x g hx; exact h10 x g (c2 x g hx)
+  · intro x g; rw [c3]; by_cases hgf : g = f
+    · subst hgf; simp [hY2]
+    · simp only [upd_ne _ _ hgf]; simp [hgf]; exact h11 x g
+  · intro x g hx; by_cases hgf : g = f
+    · subst hgf; simp [hY1]
+    · rw [upd_ne _ _ hgf]
+      rcases c4 x g hx with h' | h'
+      · exact h12 x g h'
+      · exact absurd h' hgf
+  · intro x g hg hx; by_cases hgf : g = f
+    · subst hgf; simp [hY4]; exact h13 x g hg (c2 x g hx)
+    · rw [upd_ne _ _ hgf]; exact h13 x g hg (c2 x g hx)
+
+/-- the driver resolves a so far unclaimed (hence unbound, unresolved) promise, with or without a value -/
+theorem inv_resolve_driver (s : State) (f : Nat) (Y : Fut) (h : Inv s)
+    (hcl : (s.fut f).claimed = false)
+    (hY1 : Y.ready = true) (hY2 : Y.waiters = []) (hY3 : Y.claimed = true) (hY4 : Y.owner = (s.fut f).owner)
+    (hsb : Y.setBy = [] ∨ (Y.setBy = [none] ∧ f < s.nExt)) :
+    Inv { s with co := fun x => wk (s.co x) f, fut := upd s.fut f Y } := by
+  have hsb' : Y.setBy = [] ∨ (Y.setBy = [none] ∧ f < s.nExt ∧ Y.ready = true) := by
+    rcases hsb with e | e
+    · exact Or.inl e
+    · exact Or.inr ⟨e.1, e.2, hY1⟩
+  have hub : ∀ c g, (s.co c).bound = some g → g ≠ f := by
+    intro c g hb e; subst e; have := (h.bound_lt c g hb).2; rw [hcl] at this; cases this
+  apply inv_of_resolved s f Y _ h hY1 hY2 hY3 hY4
+  · intro x; exact coOk_wk _ f (h.co_ok x)
+  · intro x g hx; rw [wk_refs] at hx; exact hx
+  · intro x g; exact wk_isAw _ f g
+  · intro x g hx; exact wk_isRes _ f g hx
+  · intro c g hb; simp only [wk_bound] at hb; rw [upd_ne _ _ (hub c g hb)]; exact h.bound_lt c g hb
+  · intro c g hb hst; simp only [wk_bound] at hb; rw [upd_ne _ _ (hub c g hb)]
+    exact h.bound_live c g hb (by intro e; exact hst ((wk_done _ f).mpr e))
+  · intro c g hb hst; simp only [wk_bound, wk_outcome] at hb ⊢; rw [upd_ne _ _ (hub c g hb)]
+    exact h.bound_done c g hb ((wk_done _ f).mp hst)
+  · intro c c' g hb hb'; simp only [wk_bound] at hb hb'; exact h.bound_inj c c' g hb hb'
+  · intro g hg; by_cases hgf : g = f
+    · subst hgf; simp only [upd_same]; exact hsb'
+    · rw [upd_ne _ _ hgf]; apply h.unbound_set g; intro c; have := hg c; simp only [wk_bound] at this; exact this
+
+
+theorem upd_upd {α} (m : Nat → α) (i : Nat) (v w : α) : upd (upd m i v) i w = upd m i w := by
+  funext j; simp only [upd]; split <;> rfl
+
+theorem St.mid_not_isAw {st : St} (h : st.mid = true) (f : Nat) : st.isAw f = false := by
+  cases st <;> simp_all [St.mid, St.isAw]
+theorem St.mid_not_done {st : St} (h : st.mid = true) : st ≠ St.done := by
+  cases st <;> simp_all [St.mid]
+
+/-- the future `f` after coroutine `c` delivered `o` into it and resolved it -/
+def delivered (x : Fut) (c : Nat) (o : Outcome) : Fut :=
+  { x with out := some o, setBy := some c :: x.setBy, ready := true, waiters := [] }
+
+/-- the record of a coroutine after `final_awaiter` -/
+def retired (x : Coro) (o : Outcome) (to : List Nat) : Coro :=
+  { x with st := St.done, outcome := some o, localDtors := x.localDtors + 1, deliveredTo := to ++ x.deliveredTo,
+           frameFrees := x.frameFrees + 1, argDtors := x.argDtors + 1 }
+
+theorem finish_bound_eq (s : State) (c f : Nat) (o : Outcome) (h : Inv s) (hm : (s.co c).st.mid = true) :
+    retire (deliver s c f o) c o [f]
+      = { s with co := upd (fun x => wk (s.co x) f) c (retired (s.co c) o [f]),
+                 fut := upd s.fut f (delivered (s.fut f) c o) } := by
+  have e1 : (deliver s c f o).co = fun x => wk (s.co x) f := by
+    funext x; simp only [deliver, resolve, setFut, upd_same, wk]
+    rw [h.waiters_count x f]
+  have e2 : wk (s.co c) f = s.co c := wk_of_not _ f (St.mid_not_isAw hm f)
+  simp only [retire, setCo, e1, e2, retired]
+  simp only [deliver, resolve, setFut, upd_same, upd_upd, delivered]
+
+
+theorem inv_finish_bound (s : State) (c f : Nat) (o : Outcome) (h : Inv s)
+    (hb : (s.co c).bound = some f) (hm : (s.co c).st.mid = true) :
+    Inv (retire (deliver s c f o) c o [f]) := by
+  rw [finish_bound_eq s c f o h hm]
+  have hnd := St.mid_not_done hm
+  have hlive := h.bound_live c f hb hnd
+  have hlt := h.bound_lt c f hb
+  have kb : ∀ y, (upd (fun x => wk (s.co x) f) c (retired (s.co c) o [f]) y).bound = (s.co y).bound := by
+    intro y; by_cases hy : y = c
+    · subst hy; simp [retired]
+    · simp [upd_ne _ _ hy]
+  have kne : ∀ y g, y ≠ c → (s.co y).bound = some g → g ≠ f := by
+    intro y g hy hg e; subst e; exact hy (h.bound_inj y c g hg hb)
+  apply inv_of_resolved s f _ _ h
+  · simp [delivered]
+  · simp [delivered]
+  · simp [delivered, hlt.2]
+  · simp [delivered]
+  · intro x; by_cases hx : x = c
+    · subst hx; simp only [upd_same]
+      have := coOk_retire (s.co x) o (h.co_ok x) hm
+      simpa [retired, hb] using this
+    · simp only [upd_ne _ _ hx]; exact coOk_wk _ f (h.co_ok x)
+  · intro x g hr; by_cases hx : x = c
+    · subst hx; simp [retired, St.refs] at hr
+    · simp only [upd_ne _ _ hx, wk_refs] at hr; exact hr
+  · intro x g; by_cases hx : x = c
+    · subst hx; rw [St.mid_not_isAw hm g]; simp [retired, St.isAw]
+    · simp only [upd_ne _ _ hx]; exact wk_isAw _ f g
+  · intro x g hr; by_cases hx : x = c
+    · subst hx; simp [retired, St.isRes] at hr
+    · simp only [upd_ne _ _ hx] at hr; exact wk_isRes _ f g hr
+  · intro y g hy; rw [kb] at hy
+    refine ⟨(h.bound_lt y g hy).1, ?_⟩
+    by_cases hgf : g = f
+    · subst hgf; simp [delivered, hlt.2]
+    · rw [upd_ne _ _ hgf]; exact (h.bound_lt y g hy).2
+  · intro y g hy hst; rw [kb] at hy
+    by_cases hyc : y = c
+    · subst hyc; simp [retired] at hst
+    · rw [upd_ne _ _ hyc] at hst; rw [upd_ne _ _ (kne y g hyc hy)]
+      exact h.bound_live y g hy (by intro e; exact hst ((wk_done _ f).mpr e))
+  · intro y g hy hst; rw [kb] at hy
+    by_cases hyc : y = c
+    · subst hyc; rw [hb] at hy; cases hy
+      simp [delivered, retired, hlive.2.2]
+    · rw [upd_ne _ _ hyc] at hst ⊢; rw [upd_ne _ _ (kne y g hyc hy)]
+      simp only [wk_outcome]
+      exact h.bound_done y g hy ((wk_done _ f).mp hst)
+  · intro y y' g hy hy'; rw [kb] at hy hy'; exact h.bound_inj y y' g hy hy'
+  · intro g hg
+    have hgf : g ≠ f := by intro e; subst e; have := hg c; rw [kb] at this; exact this hb
+    rw [upd_ne _ _ hgf]; apply h.unbound_set g; intro y; have := hg y; rw [kb] at this; exact this
+
+/-- `final_awaiter` of a detached coroutine -/
+theorem inv_finish_none (s : State) (c : Nat) (o : Outcome) (h : Inv s)
+    (hb : (s.co c).bound = none) (hm : (s.co c).st.mid = true) :
+    Inv (retire s c o []) := by
+  obtain ⟨h1,h2,h3,h4,h5,h6,h7,h8,h9,h10,h11,h12,h13⟩ := h
+  have kb : ∀ y, (upd s.co c (retired (s.co c) o []) y).bound = (s.co y).bound := by
+    intro y; by_cases hy : y = c
+    · subst hy; simp [retired]
+    · simp [upd_ne _ _ hy]
+  show Inv { s with co := upd s.co c (retired (s.co c) o []) }
+  refine ⟨?_,?_,?_,?_,?_,?_,?_,?_,?_,?_,?_,?_,?_⟩ <;> dsimp only
+  · exact h1
+  · intro y; by_cases hy : y = c
+    · subst hy; simp only [upd_same]
+      have := coOk_retire (s.co y) o (h2 y) hm
+      simpa [retired, hb] using this
+    · simpa [upd_ne _ _ hy] using h2 y
+  · intro y g hy; rw [kb] at hy; exact h3 y g hy
+  · intro y g hy hst; rw [kb] at hy
+    by_cases hyc : y = c
+    · subst hyc; rw [hb] at hy; cases hy
+    · rw [upd_ne _ _ hyc] at hst; exact h4 y g hy hst
+  · intro y g hy hst; rw [kb] at hy
+    by_cases hyc : y = c
+    · subst hyc; rw [hb] at hy; cases hy
+    · rw [upd_ne _ _ hyc] at hst ⊢; exact h5 y g hy hst
+  · intro y y' g hy hy'; rw [kb] at hy hy'; exact h6 y y' g hy hy'
+  · intro g hg; apply h7 g; intro y; have := hg y; rw [kb] at this; exact this
+  · exact h8
+  · exact h9
+  · intro y g hy; by_cases hyc : y = c
+    · subst hyc; simp [retired, St.refs] at hy
+    · rw [upd_ne _ _ hyc] at hy; exact h10 y g hy
+  · intro y g; by_cases hyc : y = c
+    · subst hyc; have := h11 y g; simp [St.mid_not_isAw hm g] at this; simp [retired, St.isAw, this]
+    · simp only [upd_ne _ _ hyc]; exact h11 y g
+  · intro y g hy; by_cases hyc : y = c
+    · subst hyc; simp [retired, St.isRes] at hy
+    · rw [upd_ne _ _ hyc] at hy; exact h12 y g hy
+  · intro y g hg hy; by_cases hyc : y = c
+    · subst hyc; simp [retired, St.refs] at hy
+    · rw [upd_ne _ _ hyc] at hy; exact h13 y g hg hy
+
+theorem inv_finish (s : State) (c : Nat) (o : Outcome) (h : Inv s) (hm : (s.co c).st.mid = true) :
+    Inv (finish s c o) := by
+  unfold finish
+  cases hb : (s.co c).bound with
+  | none => exact inv_finish_none s c o h hb hm
+  | some f => exact inv_finish_bound s c f o h hb hm
+
+
+/-! ### the operations -/
+
+theorem inv_create (s : State) (c : Nat) (h : Inv s) (hc : (s.co c).st = St.absent) : Inv (create s c) := by
+  apply inv_setCo s c _ h
+  · exact coOk_create _ _ (h.co_ok c) hc
+  · rfl
+  · simp
+  · simp [hc]
+  · intro f; simp [hc, St.isAw]
+  · intro f; simp [St.refs]
+  · intro f; simp [St.isRes]
+
+theorem inv_dropU (s : State) (c : Nat) (h : Inv s) (hc : (s.co c).st = St.unstarted) : Inv (dropU s c) := by
+  apply inv_setCo s c _ h
+  · exact coOk_dropU _ (h.co_ok c) hc
+  · rfl
+  · simp
+  · simp [hc]
+  · intro f; simp [hc, St.isAw]
+  · intro f; simp [St.refs]
+  · intro f; simp [St.isRes]
+
+theorem inv_begin (s : State) (c : Nat) (h : Inv s) (hc : (s.co c).st = St.scheduled) :
+    Inv (setCo s c { s.co c with st := St.running, bodyStarts := (s.co c).bodyStarts + 1 }) := by
+  apply inv_setCo s c _ h
+  · exact coOk_begin _ (h.co_ok c) hc
+  · rfl
+  · simp
+  · simp [hc]
+  · intro f; simp [hc, St.isAw]
+  · intro f; simp [St.refs]
+  · intro f; simp [St.isRes]
+
+/-- a non-suspended body moves to `running`, changing only `pc`, `acc`, `saw` -/
+theorem inv_toRunning (s : State) (c : Nat) (p : List Act) (a : Nat) (w : List (Nat × Outcome)) (h : Inv s)
+    (hm : (s.co c).st.mid = true) :
+    Inv (setCo s c { s.co c with st := St.running, pc := p, acc := a, saw := w }) := by
+  apply inv_setCo s c _ h
+  · exact coOk_mid _ _ p a w (h.co_ok c) hm (by simp [St.mid])
+  · rfl
+  · simp
+  · exact St.mid_not_done hm
+  · intro f; rw [St.mid_not_isAw hm f]; simp [St.isAw]
+  · intro f; simp [St.refs]
+  · intro f; simp [St.isRes]
+
+theorem inv_setSt_yielded (s : State) (c : Nat) (h : Inv s) (hm : (s.co c).st.mid = true) :
+    Inv (setSt s c St.yielded) := by
+  apply inv_setCo s c _ h
+  · exact coOk_mid _ _ _ _ _ (h.co_ok c) hm (by simp [St.mid])
+  · rfl
+  · simp
+  · exact St.mid_not_done hm
+  · intro f; rw [St.mid_not_isAw hm f]; simp [St.isAw]
+  · intro f; simp [St.refs]
+  · intro f; simp [St.isRes]
+
+theorem inv_setSt_want (s : State) (c f : Nat) (ct : Bool) (h : Inv s) (hm : (s.co c).st.mid = true)
+    (hf : f < s.nextFut) (hown : s.nExt ≤ f → (s.fut f).owner = some c) :
+    Inv (setSt s c (St.wantAwait f ct)) := by
+  apply inv_setCo s c _ h
+  · exact coOk_mid _ _ _ _ _ (h.co_ok c) hm (by simp [St.mid])
+  · rfl
+  · simp
+  · exact St.mid_not_done hm
+  · intro g; rw [St.mid_not_isAw hm g]; simp [St.isAw]
+  · intro g hg; simp [St.refs] at hg; subst hg; exact Or.inr ⟨hf, hown⟩
+  · intro g; simp [St.isRes]
+
+theorem inv_consume (s : State) (c f : Nat) (ct : Bool) (h : Inv s) (hm : (s.co c).st.mid = true) :
+    Inv (consume s c f ct) := by
+  unfold consume
+  split
+  · exact inv_toRunning s c _ _ _ h hm
+  · split
+    · exact inv_toRunning s c _ _ _ h hm
+    · exact inv_finish s c _ h hm
+
+theorem resolve_setFut_eq (s : State) (f : Nat) (X : Fut) (h : Inv s) (hw : X.waiters = (s.fut f).waiters) :
+    resolve (setFut s f X) f
+      = { s with co := fun x => wk (s.co x) f, fut := upd s.fut f { X with ready := true, waiters := [] } } := by
+  simp only [resolve, setFut, upd_same, upd_upd, hw, wk, h.waiters_count]
+
+theorem inv_setF (s : State) (k : Nat) (o : Outcome) (h : Inv s) : Inv (setF s k o).1 := by
+  unfold setF
+  split
+  · split
+    · exact h
+    · rename_i hk hc
+      dsimp only
+      rw [resolve_setFut_eq s k { s.fut k with claimed := true, out := some o, setBy := none :: (s.fut k).setBy } h rfl]
+      have hc' : (s.fut k).claimed = false := by simpa using hc
+      have hub : ∀ c, (s.co c).bound ≠ some k := by
+        intro c hb; have := (h.bound_lt c k hb).2; rw [hc'] at this; cases this
+      apply inv_resolve_driver s k _ h hc' <;> try simp
+      rcases h.unbound_set k hub with e | e
+      · exact ⟨e, hk⟩
+      · have := (h.ready_ok k e.2.2).2; rw [hc'] at this; cases this
+  · exact h
+
+theorem inv_dropP (s : State) (k : Nat) (h : Inv s) : Inv (dropP s k).1 := by
+  unfold dropP
+  split
+  · split
+    · exact h
+    · rename_i hk hc
+      dsimp only
+      rw [resolve_setFut_eq s k { s.fut k with claimed := true } h rfl]
+      have hc' : (s.fut k).claimed = false := by simpa using hc
+      have hub : ∀ c, (s.co c).bound ≠ some k := by
+        intro c hb; have := (h.bound_lt c k hb).2; rw [hc'] at this; cases this
+      apply inv_resolve_driver s k _ h hc' <;> try simp
+      rcases h.unbound_set k hub with e | e
+      · exact Or.inl e
+      · have := (h.ready_ok k e.2.2).2; rw [hc'] at this; cases this
+  · exact h
+
+
+/-- facts about an unclaimed promise: its future is unbound, unresolved and untouched -/
+theorem unclaimed_facts (s : State) (k : Nat) (h : Inv s) (hc : (s.fut k).claimed = false) :
+    (∀ c, (s.co c).bound ≠ some k) ∧ (s.fut k).ready = false ∧ (s.fut k).out = none ∧ (s.fut k).setBy = [] := by
+  have hub : ∀ c, (s.co c).bound ≠ some k := by
+    intro c hb; have := (h.bound_lt c k hb).2; rw [hc] at this; cases this
+  have hr : (s.fut k).ready = false := by
+    cases hr : (s.fut k).ready
+    · rfl
+    · have := (h.ready_ok k hr).2; rw [hc] at this; cases this
+  refine ⟨hub, hr, ?_, ?_⟩
+  · cases ho : (s.fut k).out
+    · rfl
+    · have := h.out_ready k (by rw [ho]; simp); rw [hr] at this; cases this
+  · rcases h.unbound_set k hub with e | e
+    · exact e
+    · rw [hr] at e; cases e.2.2
+
+theorem inv_claim (s : State) (k : Nat) (h : Inv s) :
+    Inv (setFut s k { s.fut k with claimed := true }) := by
+  obtain ⟨h1,h2,h3,h4,h5,h6,h7,h8,h9,h10,h11,h12,h13⟩ := h
+  have kr : ∀ g, (upd s.fut k { s.fut k with claimed := true } g).ready = (s.fut g).ready := by
+    intro g; by_cases hg : g = k
+    · subst hg; simp
+    · simp [upd_ne _ _ hg]
+  have ko : ∀ g, (upd s.fut k { s.fut k with claimed := true } g).out = (s.fut g).out := by
+    intro g; by_cases hg : g = k
+    · subst hg; simp
+    · simp [upd_ne _ _ hg]
+  have ks : ∀ g, (upd s.fut k { s.fut k with claimed := true } g).setBy = (s.fut g).setBy := by
+    intro g; by_cases hg : g = k
+    · subst hg; simp
+    · simp [upd_ne _ _ hg]
+  have kw : ∀ g, (upd s.fut k { s.fut k with claimed := true } g).waiters = (s.fut g).waiters := by
+    intro g; by_cases hg : g = k
+    · subst hg; simp
+    · simp [upd_ne _ _ hg]
+  have kown : ∀ g, (upd s.fut k { s.fut k with claimed := true } g).owner = (s.fut g).owner := by
+    intro g; by_cases hg : g = k
+    · subst hg; simp
+    · simp [upd_ne _ _ hg]
+  have kc : ∀ g, (s.fut g).claimed = true → (upd s.fut k { s.fut k with claimed := true } g).claimed = true := by
+    intro g hgc; by_cases hg : g = k
+    · subst hg; simp
+    · simp [upd_ne _ _ hg, hgc]
+  refine ⟨?_,?_,?_,?_,?_,?_,?_,?_,?_,?_,?_,?_,?_⟩ <;> dsimp only [setFut]
+  · exact h1
+  · exact h2
+  · intro y g hy; exact ⟨(h3 y g hy).1, kc g (h3 y g hy).2⟩
+  · intro y g hy hst; rw [kr, ko, ks]; exact h4 y g hy hst
+  · intro y g hy hst; rw [kr, ko, ks]; exact h5 y g hy hst
+  · exact h6
+  · intro g hg; rw [ks, kr]; exact h7 g hg
+  · intro g hg; rw [kr] at hg; rw [kw]; exact ⟨(h8 g hg).1, kc g (h8 g hg).2⟩
+  · intro g hg; rw [ko] at hg; rw [kr]; exact h9 g hg
+  · exact h10
+  · intro y g; rw [kw]; exact h11 y g
+  · intro y g hy; rw [kr]; exact h12 y g hy
+  · intro y g hg hy; rw [kown]; exact h13 y g hg hy
+
+theorem inv_start (s : State) (c : Nat) (h : Inv s) (hc : (s.co c).st = St.unstarted) :
+    Inv (startCoro (newFut s none []) c (some s.nextFut)) := by
+  have h' := inv_newFut s none h
+  have hub : ∀ y, (s.co y).bound ≠ some s.nextFut := by
+    intro y hy; have := (h.bound_lt y _ hy).1; omega
+  apply inv_bind _ c s.nextFut h' (by simpa using hc) (by simp) <;>
+    simp [newFut_fut_new, hub]
+
+theorem inv_startP (s : State) (c k : Nat) (h : Inv s) : Inv (step s (Op.startP c k)).1 := by
+  simp only [step]
+  split
+  · rename_i hg
+    split
+    · -- refused: `_future` is overwritten with null, which it already was
+      have hb := (h.co_ok c).unb (by simp [hg.1, St.started])
+      apply inv_setCo s c _ h
+      · have := h.co_ok c
+        obtain ⟨a1,a2,a3,a4,a5,a6,a7,a8,a9,a10⟩ := this
+        constructor <;> simp_all
+      · simp [hb]
+      · simp [hg.1]
+      · simp [hg.1]
+      · intro f; rfl
+      · intro f hf; exact Or.inl hf
+      · intro f hf; simp [hg.1, St.isRes] at hf
+    · rename_i hcl
+      have hcl' : (s.fut k).claimed = false := by simpa using hcl
+      obtain ⟨hub, hr, ho, hs⟩ := unclaimed_facts s k h hcl'
+      have h' := inv_claim s k h
+      have hk : k < s.nextFut := Nat.lt_of_lt_of_le hg.2 h.next_le
+      apply inv_bind _ c k h' hg.1 hk <;> simp [setFut, hr, ho, hs, hub]
+  · exact h
+
+
+theorem create_co_ne (s : State) {c j : Nat} (h : c ≠ j) : (create s j).co c = s.co c := by
+  simp [create, setCo, upd_ne _ _ h]
+theorem create_st (s : State) (j : Nat) : ((create s j).co j).st = St.unstarted := by simp [create, setCo]
+theorem startCoro_co_ne (s : State) {c j : Nat} (b : Option Nat) (h : c ≠ j) : (startCoro s j b).co c = s.co c := by
+  simp [startCoro, setCo, upd_ne _ _ h]
+@[simp] theorem create_nextFut (s : State) (j : Nat) : (create s j).nextFut = s.nextFut := rfl
+@[simp] theorem create_nExt (s : State) (j : Nat) : (create s j).nExt = s.nExt := rfl
+@[simp] theorem create_fut (s : State) (j : Nat) : (create s j).fut = s.fut := rfl
+@[simp] theorem startCoro_nextFut (s : State) (j : Nat) (b : Option Nat) : (startCoro s j b).nextFut = s.nextFut := rfl
+@[simp] theorem startCoro_nExt (s : State) (j : Nat) (b : Option Nat) : (startCoro s j b).nExt = s.nExt := rfl
+@[simp] theorem startCoro_fut (s : State) (j : Nat) (b : Option Nat) : (startCoro s j b).fut = s.fut := rfl
+
+theorem newFut_create_fut (s : State) (j : Nat) (o : Option Nat) (w : List Nat) :
+    (newFut (create s j) o w).fut s.nextFut = { claimed := true, owner := o, waiters := w } :=
+  newFut_fut_new (create s j) o w
+
+theorem inv_spawnBound (s : State) (c j : Nat) (h : Inv s) (hj : (s.co j).st = St.absent) :
+    Inv (spawnBound s c j) := by
+  have h1 := inv_create s j h hj
+  have h2 := inv_newFut (create s j) (some c) h1
+  have hub : ∀ y, ((create s j).co y).bound ≠ some s.nextFut := by
+    intro y hy; have := (h1.bound_lt y _ hy).1; simp at this
+  unfold spawnBound
+  apply inv_bind _ j s.nextFut h2 (by simpa using create_st s j) (by simp) <;>
+    simp [newFut_create_fut, hub]
+
+theorem spawnBound_co_ne (s : State) {c j : Nat} (x : Nat) (h : x ≠ j) : (spawnBound s c j).co x = s.co x := by
+  simp [spawnBound, startCoro_co_ne _ _ h, create_co_ne _ h]
+
+theorem spawnBound_fut (s : State) (c j : Nat) :
+    (spawnBound s c j).fut s.nextFut = { claimed := true, owner := some c, waiters := [] } := by
+  simp [spawnBound, newFut_create_fut]
+
+theorem coOk_pc (x : Coro) (p : List Act) (h : CoOk x) : CoOk { x with pc := p } := by
+  obtain ⟨a1,a2,a3,a4,a5,a6,a7,a8,a9,a10⟩ := h
+  constructor <;> simp_all
+
+theorem inv_setPc (s : State) (c : Nat) (p : List Act) (h : Inv s) (hr : (s.co c).st = St.running) :
+    Inv (setCo s c { s.co c with pc := p }) := by
+  apply inv_setCo s c _ h
+  · exact coOk_pc _ p (h.co_ok c)
+  · rfl
+  · simp [hr]
+  · simp [hr]
+  · intro f; rfl
+  · intro f hf; exact Or.inl hf
+  · intro f hf; simp [hr, St.isRes] at hf
+
+theorem inv_execAct (s : State) (c : Nat) (a : Act) (h : Inv s) (hr : (s.co c).st = St.running) :
+    Inv (execAct s c a) := by
+  have hm : (s.co c).st.mid = true := by simp [hr, St.mid]
+  cases a with
+  | compute => exact h
+  | awaitFut k ct =>
+    simp only [execAct]
+    split
+    · rename_i hk
+      exact inv_setSt_want s c k ct h hm (Nat.lt_of_lt_of_le hk h.next_le) (by intro h'; omega)
+    · exact h
+  | awaitChild j direct ct =>
+    simp only [execAct]
+    split
+    · rename_i hg
+      have hcj : c ≠ j := fun e => hg.2 e.symm
+      have h' := inv_spawnBound s c j h hg.1
+      have hst : ((spawnBound s c j).co c).st = St.running := by rw [spawnBound_co_ne s c hcj]; exact hr
+      split
+      · apply inv_subscribe _ c s.nextFut ct h' (Or.inl hst)
+        · simp [spawnBound_fut]
+        · simp [spawnBound]
+        · intro _; simp [spawnBound_fut]
+      · apply inv_setSt_want _ c s.nextFut ct h' (by simp [hst, St.mid])
+        · simp [spawnBound]
+        · intro _; simp [spawnBound_fut]
+    · exact h
+  | detachChild j awaited =>
+    simp only [execAct]
+    split
+    · rename_i hg
+      have hcj : c ≠ j := fun e => hg.2 e.symm
+      have h' := inv_startCoro_none _ j (inv_create s j h hg.1) (create_st s j)
+      split
+      · apply inv_setSt_yielded _ c h'
+        rw [startCoro_co_ne _ _ hcj, create_co_ne _ hcj]; exact hm
+      · exact h'
+    · exact h
+  | dropChild j =>
+    simp only [execAct]
+    split
+    · rename_i hg
+      exact inv_dropU _ j (inv_create s j h hg.1) (create_st s j)
+    · exact h
+  | throw e => exact inv_finish s c _ h hm
+  | ret v => exact inv_finish s c _ h hm
+
+theorem inv_stepCo (s : State) (c : Nat) (h : Inv s) : Inv (stepCo s c).1 := by
+  unfold stepCo
+  split
+  · rename_i hs; exact inv_begin s c h hs
+  · rename_i hs
+    have : Inv (setCo s c { s.co c with st := St.running, pc := (s.co c).pc, acc := (s.co c).acc, saw := (s.co c).saw }) :=
+      inv_toRunning s c _ _ _ h (by simp [hs, St.mid])
+    exact this
+  · rename_i f ct hs; exact inv_consume s c f ct h (by simp [hs, St.mid])
+  · rename_i f ct hs
+    split
+    · exact inv_consume s c f ct h (by simp [hs, St.mid])
+    · rename_i hr
+      apply inv_subscribe s c f ct h (Or.inr hs) (by simpa using hr)
+      · exact h.refs_lt c f (by simp [hs, St.refs])
+      · intro hf; exact h.owner_only c f hf (by simp [hs, St.refs])
+  · rename_i hs
+    split
+    · exact inv_finish s c _ h (by simp [hs, St.mid])
+    · rename_i a rest hp
+      apply inv_execAct _ c a (inv_setPc s c rest h hs)
+      simp [setCo, hs]
+  · exact h
+
+theorem inv_step (s : State) (op : Op) (h : Inv s) : Inv (step s op).1 := by
+  cases op with
+  | create c => simp only [step]; split
+                · rename_i hc; exact inv_create s c h hc
+                · exact h
+  | dropU c => simp only [step]; split
+               · rename_i hc; exact inv_dropU s c h hc
+               · exact h
+  | detach c => simp only [step]; split
+                · rename_i hc; exact inv_startCoro_none s c h hc
+                · exact h
+  | start c => simp only [step]; split
+               · rename_i hc; exact inv_start s c h hc
+               · exact h
+  | startP c k => exact inv_startP s c k h
+  | setF k o => exact inv_setF s k o h
+  | dropP k => exact inv_dropP s k h
+  | step c => exact inv_stepCo s c h
+
+theorem inv_run (s : State) (ops : List Op) (h : Inv s) : Inv (run s ops) := by
+  induction ops generalizing s with
+  | nil => exact h
+  | cons op ops ih => exact ih _ (inv_step s op h)
+
+
+/-! ### final states are absorbing (a destroyed frame is never revived, on any schedule) -/
+
+/-- final states are absorbing -/
+def Frozen (x y : Coro) : Prop :=
+  (x.st = St.dropped → y.st = St.dropped) ∧ (x.st = St.done → y.st = St.done)
+
+def Le (s t : State) : Prop := ∀ c, Frozen (s.co c) (t.co c)
+
+theorem Le.refl (s : State) : Le s s := fun _ => ⟨id, id⟩
+theorem Le.trans {s t u : State} (a : Le s t) (b : Le t u) : Le s u :=
+  fun c => ⟨fun h => (b c).1 ((a c).1 h), fun h => (b c).2 ((a c).2 h)⟩
+
+theorem le_setCo (s : State) (c : Nat) (x : Coro) (h1 : (s.co c).st ≠ St.dropped) (h2 : (s.co c).st ≠ St.done) :
+    Le s (setCo s c x) := by
+  intro y; by_cases hy : y = c
+  · subst hy; exact ⟨fun h => absurd h h1, fun h => absurd h h2⟩
+  · simp only [setCo, upd_ne _ _ hy]; exact ⟨id, id⟩
+
+theorem le_setFut (s : State) (f : Nat) (x : Fut) : Le s (setFut s f x) := fun _ => ⟨id, id⟩
+theorem le_newFut (s : State) (o : Option Nat) (w : List Nat) : Le s (newFut s o w) := fun _ => ⟨id, id⟩
+
+theorem le_resolve (s : State) (f : Nat) : Le s (resolve s f) := by
+  intro c; constructor <;> intro h <;> simp [resolve, wakeOne, h]
+
+theorem le_mid (s : State) (c : Nat) (x : Coro) (hm : (s.co c).st.mid = true) : Le s (setCo s c x) :=
+  le_setCo s c x (by intro e; simp [e, St.mid] at hm) (by intro e; simp [e, St.mid] at hm)
+
+theorem le_create (s : State) (c : Nat) (h : (s.co c).st = St.absent) : Le s (create s c) :=
+  le_setCo s c _ (by simp [h]) (by simp [h])
+theorem le_dropU (s : State) (c : Nat) (h : (s.co c).st = St.unstarted) : Le s (dropU s c) :=
+  le_setCo s c _ (by simp [h]) (by simp [h])
+theorem le_startCoro (s : State) (c : Nat) (b : Option Nat) (h : (s.co c).st = St.unstarted) : Le s (startCoro s c b) :=
+  le_setCo s c _ (by simp [h]) (by simp [h])
+
+theorem wakeOne_st_mid (x : Coro) (n : Nat) (hm : x.st.mid = true) : (wakeOne x n).st = x.st := by
+  cases hs : x.st <;> simp [hs, St.mid] at hm <;> simp [wakeOne, hs]
+
+theorem le_deliver (s : State) (c f : Nat) (o : Outcome) : Le s (deliver s c f o) :=
+  Le.trans (le_setFut s f { s.fut f with out := some o, setBy := some c :: (s.fut f).setBy }) (le_resolve _ f)
+
+theorem deliver_st_mid (s : State) (c f : Nat) (o : Outcome) (hm : (s.co c).st.mid = true) :
+    ((deliver s c f o).co c).st = (s.co c).st := by
+  simp only [deliver, resolve, setFut]; exact wakeOne_st_mid _ _ hm
+
+theorem le_finish (s : State) (c : Nat) (o : Outcome) (hm : (s.co c).st.mid = true) : Le s (finish s c o) := by
+  unfold finish
+  split
+  · exact le_mid s c _ hm
+  · rename_i f hb
+    exact Le.trans (le_deliver s c f o) (le_mid _ c _ (by rw [deliver_st_mid s c f o hm]; exact hm))
+
+theorem le_consume (s : State) (c f : Nat) (ct : Bool) (hm : (s.co c).st.mid = true) : Le s (consume s c f ct) := by
+  unfold consume
+  split
+  · exact le_mid s c _ hm
+  · split
+    · exact le_mid s c _ hm
+    · exact le_finish s c _ hm
+
+theorem le_subscribe (s : State) (c f : Nat) (ct : Bool) (hm : (s.co c).st.mid = true) : Le s (subscribe s c f ct) :=
+  Le.trans (le_setFut s f _) (le_mid _ c _ hm)
+
+theorem le_spawnBound (s : State) (c j : Nat) (hj : (s.co j).st = St.absent) : Le s (spawnBound s c j) :=
+  Le.trans (Le.trans (le_create s j hj) (le_newFut _ _ _)) (le_startCoro _ j _ (by simpa using create_st s j))
+
+theorem le_execAct (s : State) (c : Nat) (a : Act) (hr : (s.co c).st = St.running) : Le s (execAct s c a) := by
+  have hm : (s.co c).st.mid = true := by simp [hr, St.mid]
+  cases a with
+  | compute => exact Le.refl s
+  | awaitFut k ct =>
+    simp only [execAct]; split
+    · exact le_mid s c _ hm
+    · exact Le.refl s
+  | awaitChild j direct ct =>
+    simp only [execAct]; split
+    · rename_i hg
+      have hcj : c ≠ j := fun e => hg.2 e.symm
+      have hm' : ((spawnBound s c j).co c).st.mid = true := by rw [spawnBound_co_ne s c hcj]; exact hm
+      split
+      · exact Le.trans (le_spawnBound s c j hg.1) (le_subscribe _ c _ ct hm')
+      · exact Le.trans (le_spawnBound s c j hg.1) (le_mid _ c _ hm')
+    · exact Le.refl s
+  | detachChild j awaited =>
+    simp only [execAct]; split
+    · rename_i hg
+      have hcj : c ≠ j := fun e => hg.2 e.symm
+      have l1 := Le.trans (le_create s j hg.1) (le_startCoro _ j none (create_st s j))
+      split
+      · refine Le.trans l1 (le_mid _ c _ ?_)
+        rw [startCoro_co_ne _ _ hcj, create_co_ne _ hcj]; exact hm
+      · exact l1
+    · exact Le.refl s
+  | dropChild j =>
+    simp only [execAct]; split
+    · rename_i hg; exact Le.trans (le_create s j hg.1) (le_dropU _ j (create_st s j))
+    · exact Le.refl s
+  | throw e => exact le_finish s c _ hm
+  | ret v => exact le_finish s c _ hm
+
+theorem le_stepCo (s : State) (c : Nat) : Le s (stepCo s c).1 := by
+  unfold stepCo
+  split
+  · rename_i hs; exact le_setCo s c _ (by simp [hs]) (by simp [hs])
+  · rename_i hs; exact le_mid s c _ (by simp [hs, St.mid])
+  · rename_i f ct hs; exact le_consume s c f ct (by simp [hs, St.mid])
+  · rename_i f ct hs
+    split
+    · exact le_consume s c f ct (by simp [hs, St.mid])
+    · exact le_subscribe s c f ct (by simp [hs, St.mid])
+  · rename_i hs
+    split
+    · exact le_finish s c _ (by simp [hs, St.mid])
+    · rename_i a rest hp
+      refine Le.trans (le_mid s c _ (by simp [hs, St.mid])) (le_execAct _ c a ?_)
+      simp [setCo, hs]
+  · exact Le.refl s
+
+theorem le_step (s : State) (op : Op) : Le s (step s op).1 := by
+  cases op with
+  | create c => simp only [step]; split
+                · rename_i hc; exact le_create s c hc
+                · exact Le.refl s
+  | dropU c => simp only [step]; split
+               · rename_i hc; exact le_dropU s c hc
+               · exact Le.refl s
+  | detach c => simp only [step]; split
+                · rename_i hc; exact le_startCoro s c none hc
+                · exact Le.refl s
+  | start c => simp only [step]; split
+               · rename_i hc; exact Le.trans (le_newFut s none []) (le_startCoro _ c _ hc)
+               · exact Le.refl s
+  | startP c k =>
+    simp only [step]; split
+    · rename_i hg
+      split
+      · exact le_setCo s c _ (by simp [hg.1]) (by simp [hg.1])
+      · exact Le.trans (le_setFut s k _) (le_startCoro _ c _ hg.1)
+    · exact Le.refl s
+  | setF k o =>
+    simp only [step, setF]; split
+    · split
+      · exact Le.refl s
+      · exact Le.trans (le_setFut s k _) (le_resolve _ k)
+    · exact Le.refl s
+  | dropP k =>
+    simp only [step, dropP]; split
+    · split
+      · exact Le.refl s
+      · exact Le.trans (le_setFut s k _) (le_resolve _ k)
+    · exact Le.refl s
+  | step c => exact le_stepCo s c
+
+theorem le_run (s : State) (ops : List Op) : Le s (run s ops) := by
+  induction ops generalizing s with
+  | nil => exact Le.refl s
+  | cons op ops ih => exact Le.trans (le_step s op) (ih _)
 
 end Cocls.Async
